@@ -10,7 +10,6 @@ eligibility guard against non-smooth energy).  Evaluators are compared pairwise 
 and rows of `force` that belong to padding atoms must compare equal to 0.0."""
 import contextlib
 import math
-
 import os
 
 import numpy as np
@@ -26,15 +25,21 @@ ASSUMPTIONS = [
     "float64 CPU, one torch thread",
     "scf_eps 1e-11 (excited: CIS/RPA tolerance 1e-9) so that the noise of the difference quotient (<= 1e-10 eV / 1e-3 A) "
     "is far below the 5e-6 eV/A bound",
-    "difference-quotient energies are the Etot values returned by Electronic_Structure.forward for a homogeneous batch of "
-    "displaced copies of the checked molecule under the same settings; the centre point of that batch must reproduce the "
+    "difference-quotient energies are the Etot values returned by Electronic_Structure.forward(molecule, do_force=False) "
+    "(public energy-only path) for a homogeneous batch of displaced copies of the checked molecule under the same "
+    "settings (ground state: the reverse-mode settings, the energy does not depend on the evaluator; excited states: the "
+    "settings of the evaluator under test, because the excitation energy is assembled differently); the centre point "
+    "of that batch must reproduce the "
     "Etot of the call under test to 1e-8 eV, otherwise the row is inconclusive (layout dependence of the energy is C05's "
     "subject, evaluator dependence of the energy is checked here as a guard)",
     "SP2 cells: force from the SP2 run, difference quotient from the diagonalisation path, bound widened by 1e3 * the "
     "SP2 tolerance as clamped by the code to [1e-7, 1e-3]",
     "a direction is compared only when all six displaced runs converged and the two first-level Richardson extrapolants "
-    "agree to 5e-7 + 1e-7|D| eV/A (a jump or kink of the returned energy inside the stencil makes -dE/dx undefined there; "
-    "such directions are counted as fd_dirs_not_smooth, never as support or violation)",
+    "agree to 5e-7 + 1e-7|D| eV/A and the second differences through the centre energy agree between the widest and the "
+    "narrowest step to 1 eV/A^2 + 2% (a jump or kink of the returned energy inside the stencil - e.g. the 1e-6 eV jump "
+    "where the overlap routine switches branch at |x|=0.5, another UHF solution on some displaced point, the energy error "
+    "inside the x-pole cone - makes -dE/dx undefined there; such directions are counted as fd_dirs_not_smooth, never as "
+    "support or violation; an undetected jump can contribute at most ~2x the admitted estimate, i.e. 0.2 of the bound)",
     "excited-state cells are compared only when the active root is >= 0.2 eV from its neighbours at x and keeps its "
     "identity (|dE_k| <= 0.05 eV, neighbours >= 0.1 eV away) at every displaced point",
     "bounds: |F.d + dE/ds| <= 5e-6 + 1e-6|F.d| for reverse-mode differentiation; the analytical and semi-numerical "
@@ -43,7 +48,10 @@ ASSUMPTIONS = [
     "pair matrix just above its |x|=0.5 branch switch) by 1/delta: they get the extra allowance "
     "4 * 8e-12 * max(|beta_A|+|beta_B|) / delta (3e-5 .. 4e-4 eV/A depending on the elements)",
     "mechanism classifier `analytical-missing-hpp-floor` re-runs the analytical evaluator with hpp clamped at 0.1 eV inside "
-    "anal_grad.w_der (monkey-patch in the worker, nothing on disk) and requires that this removes the discrepancy",
+    "anal_grad.w_der (monkey-patch in the worker, nothing on disk) and requires that this removes the discrepancy "
+    "(the defect itself was repaired in /repo commit 3571779; the classifier stays so that a regression is named)",
+    "mechanism classifier `pair-on-x-pole` is geometric: some pair vector involving a non-hydrogen atom of the checked row "
+    "within 4.6e-4 rad of +x or -x at the geometry the force was evaluated at",
 ]
 REQUIRED_MONITORS = ["fd_dirs_compared", "evaluator_pairs_compared", "padding_rows_checked", "excited_dirs_compared",
                      "axis_aligned_dirs_compared", "sp2_dirs_compared"]
@@ -231,6 +239,11 @@ def gen_cases(tier, seed):
                     pairs.append(_pair_case(g, method, a, b, sc, _orient_generic(), uhf=(odd and si == 1) or (k + si) % 5 == 0))
                     pairs.append(_pair_case(g, method, a, b, sc, _orient_axis(g), uhf=(k + si) % 7 == 0))
     cases = lib + pairs
+    if not quick:
+        # the excited-state cases (most expensive) stay in front; the rest is interleaved so that a run cut short by the
+        # time budget still samples the pair matrix and the lattice evenly
+        head, tail = cases[:n_exc], cases[n_exc:]
+        cases = head + [tail[int(i)] for i in g.permutation(len(tail))]
     for c in cases:
         c["tier"] = tier
     return cases
@@ -549,7 +562,7 @@ def run_case(case):
             o = run.single_point(S if len(rows) > 1 else S[0], C if len(rows) > 1 else C[0], sett, charges=qarg,
                                  mult=marg, keep=keep)
         except Exception as e:
-            if exc and "Maximum number of roots" in str(e):
+            if exc and any(k in str(e) for k in ("Maximum number of roots", "A-B matrix has negative eigenvalues")):
                 # the package rejects the request loudly (more roots than n_occ*n_virt): outside C01's domain
                 return {"ineligible": "excited-state request rejected by the package: %s" % str(e)[:80],
                         "monitors": mon}
